@@ -123,6 +123,11 @@ KINDS = ["connectReq", "connectEvt", "dConnected", "dClosed", "disconnectReq", "
 
 def cases(chk):
     r = chk.rng
+    for how2 in ("event", "interface"):
+        for down in ("peer-close", "disconnect-request"):
+            for partial in (0, 1, 2, 3, 4, 20):
+                yield "reframe", {"conns": [["event", ["aa01", "bb0203"], partial, down], [how2, ["cc", "dd0405", "ee"], 0, "end"]]}
+    yield "reframe", {"conns": [["interface", ["aa"], 2, "peer-close"], ["interface", ["bb"], 5, "disconnect-request"], ["event", ["cc", "dd"], 0, "end"]]}
     for state in ("connecting", "connected"):
         for ops in (["disconnect"], ["disconnect", "send"], ["close"], ["connect-event", "disconnect"], ["send", "disconnect", "disconnect"], ["close", "disconnect"]):
             yield "dispcontract", {"state": state, "ops": ops}
@@ -194,6 +199,60 @@ def cases(chk):
         for n in range(1, 6):
             for combo in itertools.product(small, repeat=n):
                 yield "exhaustive", {"events": list(combo), "opt": {"reconnect": 1, "passive": 0}}
+
+
+def run_reframe(chk, case):
+    """"transport state is reset so that a later connect starts fresh", inbound side: the real network layer (dispatcher double) under the real
+    segment layer.  A connection goes down with part of a segment received; the next connection — opened by a CONNECT event or, as the stack's
+    own reconnects do, through the network layer's interface — must have its frames handed up exactly."""
+    from yowsup.layers import YowLayer, YowLayerEvent
+    from yowsup.layers.network import YowNetworkLayer
+    from yowsup.layers.noise.layer_noise_segments import YowNoiseSegmentsLayer
+    from yowsup.stacks import YowStack
+    import yowsup.layers.network.layer as nl
+    fails = []
+    saved = nl.AsyncoreConnectionDispatcher
+    nl.AsyncoreConnectionDispatcher = FakeDispatcher
+    FakeDispatcher.created = []
+    FakeDispatcher.LOG = []
+    try:
+        got = []
+
+        class Top(YowLayer):
+            def receive(self, d):
+                got.append(bytes(d))
+
+            def send(self, d):
+                self.toLower(d)
+        stack = YowStack((YowNetworkLayer, YowNoiseSegmentsLayer, Top()), reversed=False)
+        stack.setProp(YowNetworkLayer.PROP_ENDPOINT, ("e1.whatsapp.net", 443))
+        stack.setProp(YowNoiseSegmentsLayer.PROP_ENABLED, True)
+        net = stack.getLayer(0)
+        want = []
+        for ci, (how, frames, partial, down) in enumerate(case["conns"]):
+            if how == "event":
+                stack.broadcastEvent(YowLayerEvent(YowNetworkLayer.EVENT_STATE_CONNECT))
+            else:
+                stack.getLayerInterface(YowNetworkLayer).connect()
+            disp = FakeDispatcher.created[-1]
+            disp.handle_connect()
+            data = b"".join(len(bytes.fromhex(f)).to_bytes(3, "big") + bytes.fromhex(f) for f in frames)
+            want += [bytes.fromhex(f) for f in frames]
+            data += (b"\x00\x00\x30" + bytes(range(0x30)))[:partial]
+            if data:
+                net.onRecvData(data)
+            if down == "peer-close":
+                disp.handle_close()
+            elif down == "disconnect-request":
+                stack.broadcastEvent(YowLayerEvent(YowNetworkLayer.EVENT_STATE_DISCONNECT))
+            _drain_detached(stack)
+            chk.hit("reframe:connect-by-" + how, "reframe:partial=%d" % min(partial, 4))
+        if got != want:
+            fails.append(oracle("C16:inbound-state-not-reset", "connections %s: frames handed up %s, sent by the peer %s (a segment the previous connection left unfinished was not dropped)"
+                                % ([(h, len(f), p, d_) for h, f, p, d_ in case["conns"]], [g.hex()[:16] for g in got], [w_.hex()[:16] for w_ in want])))
+    finally:
+        nl.AsyncoreConnectionDispatcher = saved
+    return fails
 
 
 def run_relogin(chk, case):
@@ -277,7 +336,7 @@ def _drain_detached(stack):
 
 
 def nontrivial(stream, case):
-    if stream == "dispcontract":
+    if stream in ("dispcontract", "reframe"):
         return (stream, repr(case))
     if stream == "realdisp":
         return (stream, repr(case))
@@ -643,6 +702,8 @@ def run_dispcontract(chk, case):
 
 
 def run_case(chk, stream, case):
+    if stream == "reframe":
+        return run_reframe(chk, case)
     if stream == "dispcontract":
         return run_dispcontract(chk, case)
     if stream == "realdisp":
@@ -885,7 +946,7 @@ def check_trace(case, executed, trace):
 
 
 def shrink(stream, case):
-    if stream in ("reboot", "realdisp", "dispcontract"):
+    if stream in ("reboot", "realdisp", "dispcontract", "reframe"):
         return
     if stream == "relogin":
         for i in range(len(case["downs"])):
